@@ -84,7 +84,8 @@ def _window(env, cfg):
         if i + 1 <= k + 2:
             std = guarded(env, 'std', lambda: t.std)
             env.claim('std_is_root_of_variance' + tag, And(std >= 0, eq(std * std, var_ref)))
-    env.canary('window_not_whole_stream', eq(t.mean, total(vs) / n) if n > k else False)
+    if k <= 3:
+        env.canary('window_not_whole_stream', eq(t.mean, total(vs) / n) if n > k else False)
 
 
 def _rejected_value(env, cfg):
